@@ -405,6 +405,10 @@ class SymArray:
         return astype(self, dt, **k)
 
     def tolist(self):
+        if self.dtype.kind == "S":
+            if has_sym(self):
+                raise UnsupportedSymbolicOp("tolist() of symbolic byte strings")
+            return to_real(self).tolist()
         return self.vals.tolist()
 
     def tobytes(self):
